@@ -99,6 +99,7 @@ def run(out, info, tier, seed):
     out.coverage['nontrivial_rule'] = 'the step carrying the malformed reply was actually executed'
     out.coverage['type_spellings'] = spelling_family(out)
     out.coverage['reused_reply_objects'] = stale_time_family(out)
+    out.coverage['none_reply_with_pending_event'] = pending_event_family(out)
 
 
 SPELLINGS = ['Time_Based', 'Time-based', ' time-based', 'TIME-BASED', 'time_based', 'timebased', 'Hybrid', 'EVENT-BASED']
@@ -139,6 +140,29 @@ def stale_time_one(j, typ):
     return dict(kind='stale_time', step_index=j, sim_type=typ, observed=[f"S0 returns the same reply dict every time with a stale 'time' entry (0) from step {first_bad} on; run ended with: {r.outcome[:120]}"])
 
 
+def pending_event_one(ev_at, ev, none_at, until=5):
+    """real-time mode: a time-based simulator has asked for an extra step with set_event (so its queue is not empty) and then
+    replies None: the run must still abort with the error naming it"""
+    from . import c17
+    cfg = dict(rt=0.125, res=1.0, until=until, strict=False,
+               sims=[dict(step_size=1, typ='time-based', events={str(ev_at): [ev]}, none_at=[none_at]), dict(step_size=1)], connect=[(0, 1)])
+    r = c17.trial(cfg)
+    if 'must always return a next step' in r['outcome'] and 'S0' in r['outcome']: return None
+    if r['outcome'].startswith('SimulationError') and 'S0' in r['outcome']: return None
+    steps = [l[2] for l in r['log'] if l[0] == 'BEGIN' and l[1] == 'S0']
+    return dict(kind='none_with_pending_event', cfg=cfg, observed=[f"real-time run: time-based S0 calls set_event({ev}) in its step {ev_at} and replies None at step {none_at}; run ended with: {r['outcome'][:120]} (S0 stepped at {steps})"])
+
+
+def pending_event_family(out):
+    n = 0
+    for ev_at, ev, none_at in ((0, 2, 0), (0, 3, 1), (1, 4, 2), (0, 4, 0)):
+        n += 1
+        v = pending_event_one(ev_at, ev, none_at)
+        if v:
+            out.violations.append(v); return n
+    return n
+
+
 def stale_time_family(out):
     n = 0
     for typ in ('time-based', 'hybrid'):
@@ -166,6 +190,12 @@ def replay(path, out):
     r = json.load(open(path))
     if r.get('kind') == 'stale_time':
         v = stale_time_one(r['step_index'], r['sim_type'])
+        print(v['observed'] if v else 'the run aborted naming the offender')
+        if v: print(f'VIOLATION property=C13 replay={path}')
+        return 1 if v else 0
+    if r.get('kind') == 'none_with_pending_event':
+        c = r['cfg']['sims'][0]; (ev_at, evs), = c['events'].items()
+        v = pending_event_one(int(ev_at), evs[0], c['none_at'][0], r['cfg']['until'])
         print(v['observed'] if v else 'the run aborted naming the offender')
         if v: print(f'VIOLATION property=C13 replay={path}')
         return 1 if v else 0
